@@ -177,6 +177,49 @@ func (a *vsa) run() {
 			}
 			switch x := ins.(type) {
 			case *ssa.Call:
+				// a module helper that works on the designated cell through a pointer: f(&cell) — run it as a
+				// transformer of the cell's value
+				if g := x.Call.StaticCallee(); g != nil && a.isCell != nil && len(x.Call.Args) == 1 && a.isCell(x.Call.Args[0]) &&
+					g.Blocks != nil && a.c.inModule(g) && g.Signature.Results().Len() == 0 && len(g.Params) == 1 {
+					distinct := map[int64]bool{}
+					okAll := true
+					for k := 0; k < n; k++ {
+						if set[k] {
+							if !cell[k].ok {
+								okAll = false
+							}
+							distinct[cell[k].v] = true
+						}
+					}
+					if okAll {
+						var dom []int64
+						for v := range distinct {
+							dom = append(dom, v)
+						}
+						sub := &vsa{c: a.c, f: g, dom: dom, entry: g.Blocks[0], sliceTab: a.sliceTab, mapKeys: a.mapKeys, mapVals: a.mapVals}
+						par := g.Params[0]
+						sub.isCell = func(addr ssa.Value) bool { return addr == ssa.Value(par) }
+						sub.run()
+						if sub.err == "" {
+							res := map[int64]aval{}
+							for i, e := range sub.exits {
+								if e.kind == "return" {
+									res[dom[i]] = e.cell
+								}
+							}
+							for k := 0; k < n; k++ {
+								if set[k] {
+									if nv, ok := res[cell[k].v]; ok {
+										cell[k] = nv
+									} else {
+										cell[k] = aval{}
+									}
+								}
+							}
+							break
+						}
+					}
+				}
 				// single-integer-argument module function: tabulate it over the argument values seen
 				callee := x.Call.StaticCallee()
 				if callee == nil || len(x.Call.Args) != 1 || callee.Blocks == nil || !a.c.inModule(callee) || callee.Signature.Results().Len() != 1 {
